@@ -306,6 +306,13 @@ def run(tier: str, seed: int) -> int:
     tlc.cleanup(r2)
     import shutil
     shutil.rmtree(work, ignore_errors=True)
+    # layout arithmetic for EVERY N (Apalache, unbounded integers): DofAllN
+    from .. import tlc as _tlc
+    for _inv in ['DofAllN']:
+        _ok, _wall, _tail = _tlc.run_apalache("Lemmas_apa", _inv)
+        run_.extra.setdefault("all_N_lemmas_apalache", {})[_inv] = _ok
+        if not _ok:
+            run_.violation({"kind": "spec", "invariant": _inv, "what": "all-N lemma refuted"}, {"apalache": _tail})
     # the composed machine (spec/Session.tla): multi-step API sessions generated by TLC -simulate, replayed call by call; this check
     # reports the mismatches of the operations it owns (filter)
     if tier != "quick":
